@@ -244,8 +244,15 @@ Fixpoint write_data_pages_chk (pfx fu : bytes) (rg_ord col_ord : Z) (num_pages n
            end
   end.
 
-Definition chunk_accepted (c : chunk) : bool :=
-  match write_data_pages_chk [] [] 0 0 0 (c_pages c) with Some _ => true | None => false end.
+(** The decision alone (same test, same counter; [Aad/Proofs.v]
+    [pages_accepted_chk] relates it to [write_data_pages_chk]). *)
+Fixpoint pages_accepted (num_pages : N) (n : nat) : bool :=
+  match n with
+  | O => true
+  | S n' => if (max_int16 <? num_pages)%N then false else pages_accepted (num_pages + 1) n'
+  end.
+
+Definition chunk_accepted (c : chunk) : bool := pages_accepted 0 (c_pages c).
 
 Definition layout_accepted (lay : layout) : bool :=
   (N.of_nat (length lay) <=? max_row_groups)%N &&
